@@ -11,7 +11,7 @@ LEVEL_TEXT = ("Thorough tier enumerates all 2^29 identifiers through parse and r
 TECHNIQUE = "exhaustive enumeration of the identifier space + property-based round trip through the public encoders/decoders"
 RULE = ("identifiers enumerated (thorough: all 2^29; quick: all 2^21 (priority,DP,PF,PS) x 3 sources + all 256 sources "
         "for sampled upper parts) through _extract_header/_build_header, plus every database PGN x Hypothesis "
-        "(source,destination,priority) through encode_ebyte/usb/yacht_devices/actisense -> decode_*; non-trivial = "
+        "(source,destination,priority) through encode_ebyte/usb/yacht_devices/actisense -> decode_*, incl. one decoder used through two entry points with byte-swapped identifier twins; non-trivial = "
         "PF in {0xEE,0xEF,0xF0,0xF1} or DP != 0 or destination not in {0,255} or priority not in {2,3,6}; distinct = identifier / tuple")
 ASSUMPTIONS = [
     "identifier layout per ISO 11783 / canboat: source bits 0-7, PS 8-15, PF 16-23, DP 24-25, priority 26-28; PDU1 iff PF < 240",
